@@ -162,12 +162,15 @@ def key_collision_hunt(ctx, hooks, rng, ncalls):
 
     ac = hooks.ac
     sr = ctx.sr
-    sym = rng.choice(["Z2", "Z2", "U1", "Z2Z2"])
     nd = 7
-    idx = [gen.rand_index(sr, rng, sym, maxc=2, maxd=2, p_single=0.0, minc=2) for _ in range(nd)]
-    x = gen.make_array(sr, rng, sym, idx, fermionic=rng.random() < 0.3, values=gen.Values(rng, "int"), sparsity=rng.choice([0.3, 0.5]), exotic=False)
-    if len(x.blocks) < 4:
-        return 0, 0, 0
+
+    def new_subject():
+        sym = rng.choice(["Z2", "Z2", "U1", "Z2Z2"])
+        idx = [gen.rand_index(sr, rng, sym, maxc=2, maxd=2, p_single=0.0, minc=2) for _ in range(nd)]
+        return gen.make_array(sr, rng, sym, idx, fermionic=rng.random() < 0.3, values=gen.Values(rng, "int"), sparsity=rng.choice([0.3, 0.5, 0.7]), exotic=False)
+
+    x = new_subject()
+    subjects = [x]
     seen = {}
     collisions = []
     orig_hasher = ac.hasher
@@ -180,9 +183,9 @@ def key_collision_hunt(ctx, hooks, rng, ncalls):
             return d
         prev = seen.get(d)
         if prev is None:
-            seen[d] = (mat, k[-1] if isinstance(k, tuple) and len(k) == 4 else None)
+            seen[d] = (mat, (subjects[-1], k[-1]) if isinstance(k, tuple) and len(k) == 4 else None)
         elif prev[0] != mat and prev[1] is not None and isinstance(k, tuple) and len(k) == 4:
-            collisions.append((prev[1], k[-1]))
+            collisions.append((prev[1], (subjects[-1], k[-1])))
         return d
 
     orig_calc = ac.calc_fuse_block_info
@@ -206,6 +209,12 @@ def key_collision_hunt(ctx, hooks, rng, ncalls):
             n += 1
             if len(collisions) >= 3:
                 break
+            if n % 4000 == 0:
+                # a new subject (new sector list, new index keys): a new family of key material
+                x = new_subject()
+                while len(x.blocks) < 4:
+                    x = new_subject()
+                subjects.append(x)
     finally:
         ac.hasher = orig_hasher
         ac.calc_fuse_block_info = orig_calc
@@ -213,21 +222,21 @@ def key_collision_hunt(ctx, hooks, rng, ncalls):
         ac._fuseinfos.clear()
         ac._fuseinfos.update(saved_cache)
     replayed = 0
-    for g1, g2 in collisions[:3]:
-        # real replay: the plan hook (if installed) judges the second plan against a fresh one
+    from .dense import describe, snapshot
+
+    for (x1, g1), (x2, g2) in collisions[:3]:
+        # real replay: cold cache, first call, second call; then the second call cache-free
         hooks.set_cache(maxsize=8192, clear=True)
-        o1 = ctx.call(lambda: x.fuse(*g1))
-        o2 = ctx.call(lambda: x.fuse(*g2))
+        o1 = ctx.call(lambda: x1.fuse(*g1))
+        o2 = ctx.call(lambda: x2.fuse(*g2))
         replayed += 1
+        same_x = "the same array" if x1 is x2 else "another array"
+        wit = {"x1": describe(x1), "x2": describe(x2), "groups_1": repr(g1), "groups_2": repr(g2)}
         if o1.ok and o2.ok:
             hooks.set_cache(maxsize=0, clear=True)
-            o3 = ctx.call(lambda: x.fuse(*g2))
-            from .dense import describe, snapshot
-
+            o3 = ctx.call(lambda: x2.fuse(*g2))
             if o3.ok and snapshot(o3.value) != snapshot(o2.value):
-                ctx.violation("cache-key-collision-false-hit", f"fuse{g2} after fuse{g1} (both keys have the same digest) differs from the cache-free fuse{g2}", {"x": describe(x), "groups_1": repr(g1), "groups_2": repr(g2)})
+                ctx.violation("cache-key-collision-false-hit", f"fuse{g2} right after fuse{g1} on {same_x} (the two cache keys have the same digest) differs from the cache-free fuse{g2}", wit)
         elif o1.ok and not o2.ok:
-            from .dense import describe
-
-            ctx.violation("cache-key-collision-false-hit", f"fuse{g2} after fuse{g1} (both keys have the same digest) raised {o2.exc!r}", {"x": describe(x), "groups_1": repr(g1), "groups_2": repr(g2)})
+            ctx.violation("cache-key-collision-false-hit", f"fuse{g2} right after fuse{g1} on {same_x} (the two cache keys have the same digest) raised {o2.exc!r}", wit)
     return n, len(collisions), replayed
